@@ -191,11 +191,19 @@ func vpSameIDs(a, b []discoveryMember) bool {
 // backups are min(ReplicaCount, members)-1 distinct live members other than the primary, every further listed owner
 // is a live member that holds data (or could not be asked), no departed member or stale incarnation is listed, the
 // coordinator is the oldest live member and each member's owned-partition count matches the table.
-func VerifC13_RoutingStep() {
+func VerifC13_RoutingStep() { vpRoutingStep(0) }
+
+// VerifC13_ThreeReplicas: the same step with ReplicaCount 3 and all three members live (so that two backup owners
+// are due), no re-join: previous owner lists, left-over data, failing length queries and ring rotation as above.
+func VerifC13_ThreeReplicas() { vpRoutingStep(3) }
+
+func vpRoutingStep(fixedReplicas int) {
 	const n = 3
 	const parts = uint64(3) // the ring library needs at least as many partitions as members; partition 0 is observed
 	replicas := 2
-	if vpBound("allreplicas") != 0 {
+	if fixedReplicas != 0 {
+		replicas = fixedReplicas
+	} else if vpBound("allreplicas") != 0 {
 		replicas = 1 + vpChoose("replicas", 3)
 	}
 	maxPrev := vpBound("maxprev")
@@ -214,8 +222,12 @@ func VerifC13_RoutingStep() {
 		}
 	}
 	vpAssume(nLive >= 1)
+	if fixedReplicas != 0 {
+		vpAssume(nLive == n)
+	}
 	// at most one member has re-joined under its old address: the previous table knows its old incarnation
 	if rj := vpChoose("rejoined", n+1); rj < n {
+		vpAssume(fixedReplicas == 0)
 		vpAssume(live[rj])
 		prevIDs[rj] = uint64(200 + rj)
 		births[rj] = int64(10 + rj)
